@@ -1,8 +1,9 @@
 (* Correspondence runner for C16.  A case is one gated run of Do / Execute / ExecutePlan:
    n resolvers, the capacity of ExecutePlan's result channel read from plan.go, and the trace of
    driver actions and observations in the driver's program order.  In the trace a returned
-   response is `RetResp (RespFull outs)` when its JSON is byte-equal to the response of the same
-   request executed without gates with the resolvers replaying exactly the outcomes outs,
+   response is `RetResp (RespFull outs errs)` when its JSON is byte-equal to the response of the same
+   request executed without gates with the resolvers replaying exactly the outcomes outs (errs = the
+   indices of the fields named by the paths of the errors the returned result actually carries),
    `RetResp RespVarErr` when it equals the response of the failed coercion, `RetCtx` when it has
    no data and exactly one error equal to ctx.Err(); anything else is reported as OtherCase.
    Codes: 0 ok, 1 trace not accepted by the LTS, 2 the Spec is violated. *)
@@ -18,7 +19,8 @@ Inductive c16case :=
                                      3 a partial / different response *)
 
 (* Spec on the observations alone: a context error only after Done; a full response only when
-   every gate was open before the return; the returned outcomes are the opened ones, in order;
+   every gate was open before the return; the returned outcomes are the opened ones, in order, and
+   the response carries exactly one error per failed resolver;
    nothing pending once Done has fired and the driver waited. *)
 Record sp := mkSp { sdone : bool; svars : option bool; sopen : list bool; sret : bool }.
 
@@ -30,9 +32,9 @@ Definition spec_obs (n : nat) (s : sp) (o : obs) : option sp :=
   | OOpen b => Some (mkSp (sdone s) (svars s) (sopen s ++ [b]) (sret s))
   | ORet RetCtx => if sdone s then Some (mkSp true (svars s) (sopen s) true) else None
   | ORet (RetResp RespVarErr) => match svars s with Some false => Some (mkSp (sdone s) (svars s) (sopen s) true) | _ => None end
-  | ORet (RetResp (RespFull outs)) =>
+  | ORet (RetResp (RespFull outs errs)) =>
     match svars s with
-    | Some true => if (length (sopen s) =? n)%nat && list_eqb Bool.eqb outs (sopen s)
+    | Some true => if (length (sopen s) =? n)%nat && list_eqb Bool.eqb outs (sopen s) && list_eqb Nat.eqb errs (errors_of outs)
                    then Some (mkSp (sdone s) (svars s) (sopen s) true) else None
     | _ => None
     end
